@@ -10,11 +10,7 @@ def concatenator(resources, all_target_fields, field_mapping):
             values = [(field_mapping[k], v) for (k, v)
                       in row.items()
                       if k in field_mapping and v is not None]
-            if len(values) == 0:
-                message = 'Got an empty row after concatenation' +\
-                    '(resource=%s, source=%r)' % (resource_.res.name, row)
-                assert len(values) > 0, message
-
+            # a row whose mapped cells are all null is a row all the same
             processed.update(dict(values))
             yield processed
 
